@@ -246,7 +246,8 @@ def check_comment_return(c, chk, lex, r, full, what):
                  'comment %s does not end in a returning action (%s)' % (what, lex.rule_name(r)))
         return
     for ap in aps:
-        ok = ap.retval == ('c', pm.TOKENS['COMMENT']) and ap.final_begin() == 0
+        ok = ap.retval == ('c', pm.TOKENS['COMMENT']) and (ap.final_begin() == 0 or
+                                                           (ap.final_begin() is None and set(dfa.rule_conditions().get(r, ())) == {'INITIAL'}))
         nn = c02.yylval_nonnull(ap, lex)
         if not ok:
             chk.fail('R15.3', 'comment-token:%s' % dfa.rule_text.get(r), 'src/lexer.l:%d' % dfa.rule_line.get(r, 0),
